@@ -8,7 +8,8 @@
 //!     ms <s> <a>               pg::monitor_scope      ds <s> <a>             pg::demonitor_scope
 //!     x <a>  stop + wait       k <a>  kill + wait
 //!   scopes: 0 = ALL_SCOPES_NOTIFICATION, 1 = DEFAULT_SCOPE, n>=2 = a scope private to the case;
-//!   groups: private to the case; actors: 1..4 local ids, 101.. remote ids (spawn_linked_remote).
+//!   groups: private to the case; actors: 1..4 local ids, 5 a thread-local actor (member only), 101.. remote ids
+//!   (spawn_linked_remote).
 //!   Every actor logs the `SupervisionEvent::ProcessGroupChanged` it handles.
 //!   race <setup ops> | <step> | <step> ...      (E2-lite: real micro-interleavings via pg::verif::point)
 //!     start <T> <op> [@<point>]   run <op> on a new OS thread named T; with @point: wait until T is parked
@@ -26,6 +27,7 @@ use std::collections::HashMap;
 use std::sync::{Arc, Mutex};
 
 use ractor::pg;
+use ractor::thread_local::{ThreadLocalActor, ThreadLocalActorSpawner};
 use ractor::{Actor, ActorCell, ActorId, ActorProcessingErr, ActorRef, ActorRuntime, SupervisionEvent};
 use rv_harness::*;
 
@@ -43,6 +45,7 @@ struct Logged {
 
 type Log = Arc<Mutex<Vec<Logged>>>;
 
+#[derive(Default)]
 struct Logger;
 impl Actor for Logger {
     type Msg = Msg;
@@ -58,10 +61,13 @@ impl Actor for Logger {
         st: &mut (u64, Log),
     ) -> Result<(), ActorProcessingErr> {
         if let SupervisionEvent::ProcessGroupChanged(change) = evt {
+            // the accessor functions of the message must agree with its fields
+            let (gs, gg) = (change.get_scope(), change.get_group());
             let (join, scope, group, cells) = match change {
                 pg::GroupChangeMessage::Join(s, g, c) => (true, s, g, c),
                 pg::GroupChangeMessage::Leave(s, g, c) => (false, s, g, c),
             };
+            let (scope, group) = if gs == scope && gg == group { (scope, group) } else { ("?".to_string(), "?".to_string()) };
             st.1.lock().unwrap().push(Logged {
                 to: st.0,
                 join,
@@ -91,6 +97,9 @@ impl Actor for Root {
 const SCOPES: [u64; 3] = [1, 2, 3];
 const GROUPS: [u64; 3] = [1, 2, 3];
 const LOCALS: [u64; 4] = [1, 2, 3, 4];
+/// a thread-local actor (`ThreadLocalActor::spawn`: its lifecycle, incl. the exit clean-up, runs on the
+/// spawner's OS thread); used as a member only — its own event log would not be settled by the paused clock
+const TLS: [u64; 1] = [5];
 const REMOTES: [u64; 2] = [101, 102];
 
 #[derive(Clone)]
@@ -287,7 +296,7 @@ async fn settle() {
     tokio::time::sleep(std::time::Duration::from_nanos(1)).await;
 }
 
-async fn run_seq(n: u64, line: &str, race: bool) -> String {
+async fn run_seq(n: u64, line: &str, race: bool, spawner: &ThreadLocalActorSpawner) -> String {
     let (rest, steps) = if race { line.split_once('|').unwrap_or((line, "")) } else { (line, "") };
     let tag = format!("c{}x{}", std::process::id(), n);
     let log: Log = Arc::new(Mutex::new(vec![]));
@@ -296,6 +305,13 @@ async fn run_seq(n: u64, line: &str, race: bool) -> String {
     let mut handles = HashMap::new();
     for a in LOCALS {
         let (r, h) = Actor::spawn(None, Logger, (a, log.clone())).await.unwrap();
+        c.back.insert(r.get_id(), a);
+        c.cells.insert(a, r.get_cell());
+        handles.insert(a, h);
+    }
+    for a in TLS {
+        let (r, h) = <Logger as ThreadLocalActor>::spawn(None, (a, log.clone()), spawner.clone()).await.unwrap();
+        assert!(r.get_id().is_local());
         c.back.insert(r.get_id(), a);
         c.cells.insert(a, r.get_cell());
         handles.insert(a, h);
@@ -480,13 +496,14 @@ async fn run_race(
 fn main() {
     let rt = tokio::runtime::Builder::new_current_thread().enable_time().start_paused(true).build().unwrap();
     rt.block_on(async {
+        let spawner = ThreadLocalActorSpawner::new();
         let mut n = 0u64;
         for line in stdin_lines() {
             n += 1;
             let (kind, rest) = line.split_once(' ').unwrap_or((&line, ""));
             match kind {
-                "seq" => println!("{}", run_seq(n, rest, false).await),
-                "race" => println!("{}", run_seq(n, rest, true).await),
+                "seq" => println!("{}", run_seq(n, rest, false, &spawner).await),
+                "race" => println!("{}", run_seq(n, rest, true, &spawner).await),
                 other => panic!("unknown case kind {other}"),
             }
         }
